@@ -477,8 +477,12 @@ where
     let guard = DropGuard::new(app, GateKind::Pub, call, size as u64);
     let plan = app.take_pub_plan();
     let mut got: Vec<u8> = Vec::new();
+    if plan.read == ReadMode::LateAll {
+        let g = app.gate(GateKind::PubRead, call * 1000);
+        g.wait().await;
+    }
     match plan.read {
-        ReadMode::Eager => match read_all().await {
+        ReadMode::Eager | ReadMode::LateAll => match read_all().await {
             Ok(b) => {
                 app.log(Ev::PubRead { call, res: Ok(b.len()) });
                 got.extend_from_slice(&b);
